@@ -281,9 +281,24 @@ func TestC19Callable(t *testing.T) {
 			calls int
 			got   []reflect.Value
 		)
+		// one case in five: the called function itself goes through Call (with arguments and result targets of its own)
+		// before it returns — calls are independent of each other, also when they nest
+		nested := rapid.IntRange(0, 4).Draw(t, "nestedCall") == 0
+		var nestedBad string
 		fn := reflect.MakeFunc(fnType, func(args []reflect.Value) []reflect.Value {
 			calls++
 			got = args
+			if nested {
+				var ri int
+				var rs string
+				var re error = c19Sentinel
+				innerCalls := 0
+				err := bigbuff.Call(bigbuff.NewCallable(func(a int, s string) (int, string, error) { innerCalls++; return a + 1, s + "!", nil }),
+					bigbuff.CallArgs(41, "in"), bigbuff.CallResults(&ri, &rs, &re))
+				if err != nil || innerCalls != 1 || ri != 42 || rs != "in!" || re != nil {
+					nestedBad = fmt.Sprintf("err=%v invocations=%d results=(%v,%q,%v), a direct call returns (42,\"in!\",<nil>)", err, innerCalls, ri, rs, re)
+				}
+			}
 			if doPanic {
 				panic(panicVal)
 			}
@@ -631,7 +646,7 @@ func TestC19Callable(t *testing.T) {
 			"sig=" + fnType.String(),
 			"args=(" + strings.Join(argDesc, ",") + ")",
 			"res=" + resMode + "(" + strings.Join(resDesc, ",") + ")",
-			fmt.Sprintf("expectCall=%v fnPanics=%v", expectCall, doPanic),
+			fmt.Sprintf("expectCall=%v fnPanics=%v nestedCall=%v", expectCall, doPanic, nested),
 		}
 		if len(extraDesc) > 0 {
 			trace = append(trace, "extra: "+strings.Join(extraDesc, " ; "))
@@ -800,6 +815,9 @@ func TestC19Callable(t *testing.T) {
 			}
 		}
 
+		if nestedBad != "" {
+			vkit.Fail(t, "C19/nested-call", "a Call made by the called function, while the outer Call was in progress, went wrong: %s\ncase: %v", nestedBad, trace)
+		}
 		for _, u := range untouched {
 			if now := c19Box(u.ptr.Elem()); !c19Same(now, u.before) {
 				vkit.Fail(t, "C19/results/overridden-target-touched", "the target of a results option that a later results option overrides was changed: before %v after %v\ncase: %v", u.before, now, trace)
